@@ -100,6 +100,7 @@ type siteRig struct {
 	gzNot       string
 	hasErrors   bool
 	errPages    map[int]string
+	errGone     map[int]bool // the page is configured but its file has gone by the time it is wanted
 	hasHeader   bool
 	hasStatus   bool
 	hasMime     bool
@@ -110,6 +111,7 @@ type siteRig struct {
 	limitSub    int                 // nested scope /p/sub
 	subScope    string              // how the nested scope is written: /p/sub or /p/sub/
 	limitsSplit bool                // the two scopes are written as two limits directives
+	limitPre    int                 // >0: a third scope, /p/su, written before the nested one: as deep as it, and a prefix of it as a string
 	hasMatchers bool                // C19: rewrite / redir / browse, driven by request text
 	siblings    map[string][]string // static file -> encodings present
 
@@ -155,10 +157,21 @@ var logFrags = []logFrag{
 	// the request body of JSON / XML uploads, line breaks escaped. How much of it is still there to be
 	// logged depends on who read it first (net/http discards an unread body when the response header goes
 	// out), so the field is compared separately: "-", or an escaped prefix of the body.
+	// the client's address; with ipmask in the log block, masked (and only this field: text taken
+	// from the request that happens to contain the address stays as it was sent)
+	{"A", `A={remote}`, func(*sreq, string, string, string, string) string {
+		if siteIPMask {
+			return "A=10.0.0.0"
+		}
+		return "A=10.0.0.1"
+	}},
 	{"Y", `Y={request_body}`, func(q *sreq, _, _, _, _ string) string { return "Y=\x00" }},
 }
 
-var evilValues = []string{"plain", "{host}", "{>X-Req}", "{status}", `\{`, "}", "{", "{~ck}", "{?q}", "{{host}}", "{>X-Evil}", "a{b}c", `\}`, "{nosuch}", "%7Bhost%7D"}
+// siteIPMask: the current run's first log directive has "ipmask 255.255.0.0" (one run at a time per process).
+var siteIPMask bool
+
+var evilValues = []string{"10.0.0.1", "for=10.0.0.1;proto=http", "plain", "{host}", "{>X-Req}", "{status}", `\{`, "}", "{", "{~ck}", "{?q}", "{{host}}", "{>X-Evil}", "a{b}c", `\}`, "{nosuch}", "%7Bhost%7D"}
 
 func (r *siteRig) probe(label string, next httpserver.Handler, w http.ResponseWriter, req *http.Request) (int, error) {
 	id := req.Header.Get("X-Req")
@@ -474,6 +487,13 @@ func runSite(mode string) sim.RigFunc {
 				r.siblings["/"+f] = append(r.siblings["/"+f], enc)
 			}
 		}
+		// the site's own Casketfile lies inside the root, with precompressed copies next to it (a
+		// deployment step that compresses everything): hidden, whatever codings the client offers
+		conf := []byte("# the configuration of this site: not for visitors\n" + strings.Repeat("SITE-CONF-SECRET\n", 30))
+		put("static/site.conf", conf)
+		put("static/site.conf.gz", cached("gz", conf, gz))
+		put("static/site.conf.br", cached("br", conf, br))
+		put("static/site.conf.zst", cached("zs", conf, zs))
 		put("err404.html", []byte("<html>CUSTOM-404-PAGE</html>\n"))
 		put("err500.html", []byte("<html>CUSTOM-500-PAGE</html>\n"))
 		put("errany.html", []byte("<html>CUSTOM-GENERIC-PAGE</html>\n"))
@@ -495,6 +515,9 @@ func runSite(mode string) sim.RigFunc {
 				}
 				r.subScope = []string{"/p/sub", "/p/sub/"}[st.Draw(2)]
 				r.limitsSplit = pick(30) // the nested scope in a limits directive of its own
+				if r.limitSub > 0 && pick(40) {
+					r.limitPre = []int{3, 30, 3000}[st.Draw(3)] // (bodies stay below the 256 KiB net/http is willing to discard before it closes a connection)
+				}
 			}
 		}
 		if r.hasGzip {
@@ -508,6 +531,7 @@ func runSite(mode string) sim.RigFunc {
 			r.logExcept = "/p/quiet"
 		}
 		r.log2 = mode == "C20" && pick(50)
+		siteIPMask = mode == "C20" && pick(30)
 		r.archive = mode == "C12" && pick(30)
 		// the log format of this run: the request id first, then a random arrangement of fragments
 		perm := make([]int, len(logFrags))
@@ -532,6 +556,9 @@ func runSite(mode string) sim.RigFunc {
 			fmt.Fprintf(&b, "http://%s:0 {\n\tbind 127.0.0.1\n\tsimnet v0\n\troot %s\n", host, r.root)
 			if r.limit > 0 {
 				fmt.Fprintf(&b, "\tlimits {\n\t\tbody /p %d\n", r.limit)
+				if r.limitPre > 0 {
+					fmt.Fprintf(&b, "\t\tbody /p/su %d\n", r.limitPre)
+				}
 				if r.limitSub > 0 && r.limitsSplit {
 					b.WriteString("\t}\n\tlimits {\n")
 				}
@@ -547,6 +574,9 @@ func runSite(mode string) sim.RigFunc {
 				fmt.Fprintf(&b, "\tlog / %s \"%s\" {\n\t\trotate_disable\n", r.logFile, logFormat)
 				if r.logExcept != "" {
 					fmt.Fprintf(&b, "\t\texcept %s\n", r.logExcept)
+				}
+				if siteIPMask {
+					b.WriteString("\t\tipmask 255.255.0.0\n")
 				}
 				b.WriteString("\t}\n")
 				if r.log2 {
@@ -634,6 +664,13 @@ func runSite(mode string) sim.RigFunc {
 			if pick(30) {
 				r.errPages[-1] = "<html>CUSTOM-GENERIC-PAGE</html>\n"
 			}
+			r.errGone = map[int]bool{}
+			for _, k := range []int{404, 500, -1} {
+				if _, ok := r.errPages[k]; ok && pick(15) {
+					r.errGone[k] = true
+					c.Fault("configured-error-page-file-missing")
+				}
+			}
 		}
 		text := siteText("s.test", false)
 		if mode == "C18" {
@@ -688,7 +725,7 @@ func runSite(mode string) sim.RigFunc {
 		})
 
 		go func() {
-			_, err := casket.Start(w.Input(text))
+			_, err := casket.Start(w.InputAt(text, filepath.Join(r.root, "static", "site.conf")))
 			if err != nil {
 				panic(fmt.Sprintf("harness: start failed: %v\n%s", err, text))
 			}
@@ -697,6 +734,9 @@ func runSite(mode string) sim.RigFunc {
 			}
 			for _, h := range r.conns {
 				h.port = r.port
+			}
+			for k := range r.errGone {
+				os.Remove(filepath.Join(r.root, map[int]string{404: "err404.html", 500: "err500.html", -1: "errany.html"}[k]))
 			}
 			r.started = true
 			<-r.finish
@@ -769,7 +809,7 @@ func (r *siteRig) genReq(id, site string) *sreq {
 	// path class
 	switch cls := st.Draw(12); {
 	case cls == 0:
-		q.path = []string{"/static/a.txt", "/static/b.html", "/static/c.css", "/static/missing.txt"}[st.Draw(4)]
+		q.path = []string{"/static/a.txt", "/static/b.html", "/static/c.css", "/static/missing.txt", "/static/site.conf"}[st.Draw(5)]
 		sc.mode = "static"
 	case cls == 1 && r.hasStatus:
 		q.path = "/teapot"
@@ -801,11 +841,11 @@ func (r *siteRig) genReq(id, site string) *sreq {
 	case cls == 7 && r.limitSub != 0:
 		// inside the nested scope, a sibling that shares its prefix up to the slash, another case
 		// (also with percent-escapes of ordinary letters inside the scope prefix: scopes match the decoded path)
-		q.path = []string{"/p/sub/x", "/p/sub/x", "/p/subway/x", "/P/Sub/x", "/p//sub/x", "/p/s%75b/x", "/%70/sub/x"}[st.Draw(7)]
+		q.path = []string{"/p/sub/x", "/p/sub/x", "/p/subway/x", "/P/Sub/x", "/p//sub/x", "/p/s%75b/x", "/%70/sub/x", "/p/surf/x"}[st.Draw(8)]
 	default:
 		q.path = []string{"/p", "/p/x", "/p/y.html"}[st.Draw(3)]
 	}
-	q.query = "q=" + []string{"1", "%7Bhost%7D", "{host}", "a%20b", "{~ck}"}[st.Draw(5)]
+	q.query = "q=" + []string{"1", "%7Bhost%7D", "{host}", "a%20b", "{~ck}", "10.0.0.1"}[st.Draw(6)]
 	if q.archiveOf != "" {
 		q.query = "archive=" + q.archiveOf
 		r.c.Probe("directory-archive-requested")
@@ -988,7 +1028,7 @@ func (r *siteRig) hostileRequest(q *sreq) {
 
 func (r *siteRig) addConn(rs []*sreq) {
 	st := r.st
-	h := &hclient{id: len(r.conns), w: r.w, ip: "127.0.0.1", opaque: r.errVisible || r.archive}
+	h := &hclient{id: len(r.conns), w: r.w, ip: "127.0.0.1", opaque: r.errVisible || r.archive, src: "10.0.0.1"}
 	for j, q := range rs {
 		q.conn, q.idx = h, j
 		var b strings.Builder
@@ -1289,10 +1329,15 @@ func (r *siteRig) judgeBody(q *sreq, resp *sim.Resp, dec []byte, derr error, bod
 			c.Violate("C12/error-without-body", fmt.Sprintf("status=%d", wantStatus), "request %s: status %d reported by the handler reached the client without any error body (%s)", q.id, wantStatus, r.dirSig())
 		}
 		page, ok := r.errPages[wantStatus]
+		gone := r.errGone[wantStatus]
 		if !ok {
 			page, ok = r.errPages[-1]
+			gone = r.errGone[-1]
 		}
-		if ok && r.hasErrors {
+		if ok && r.hasErrors && gone {
+			// the page cannot be loaded: the plain error body is served instead (checked above: not empty)
+			c.Probe("error-page-file-missing-plain-body-served")
+		} else if ok && r.hasErrors {
 			if string(dec) != page {
 				c.Violate("C12/error-page-not-served", fmt.Sprintf("status=%d", wantStatus), "request %s: status %d has a configured error page but the client got %q", q.id, wantStatus, trunc(dec, 80))
 			}
@@ -1357,6 +1402,9 @@ func (r *siteRig) limitFor(p string) int {
 	lim := 0
 	if strings.HasPrefix(cp, "/p") {
 		lim = r.limit
+	}
+	if r.limitPre > 0 && strings.HasPrefix(cp, "/p/su") {
+		lim = r.limitPre
 	}
 	if r.limitSub > 0 && strings.HasPrefix(cp, r.subScope) {
 		lim = r.limitSub
@@ -1444,6 +1492,10 @@ func (r *siteRig) judgeCompression(q *sreq, resp *sim.Resp, dec []byte, derr err
 			c.Violate("C18/coding-not-offered", fmt.Sprintf("ce=%q", ce), "request %s (%s, siblings %v): the client offered Accept-Encoding %q but the response is %q-coded", q.id, q.path, r.siblings[q.path], q.ae, ce)
 		}
 		c.Probe("precompressed-sibling-served")
+		if derr != nil && !bodyless {
+			// (the twin site serves the same files through the same code: the comparison below cannot see this)
+			c.Violate("C18/body-undecodable", sig, "request %s (%s %s, Accept-Encoding %q, status %d): the file server labelled its response %q but the body does not decode: %v", q.id, q.method, q.path, q.ae, resp.Status, ce, derr)
+		}
 	}
 	if tw == nil {
 		return
